@@ -8,5 +8,6 @@ CONSTANTS
   DEV_OwnerImportTwice = TRUE
   DEV_OwnerNaming = TRUE
   DEV_WorldMerge = TRUE
+  DEV_SharedRemap = TRUE
 INVARIANTS OneImportPerKey
 CHECK_DEADLOCK FALSE
